@@ -40,7 +40,7 @@ EXPLANATION = (
     "leading '>' (judged with the tokenizer oracles).  Not decided: structural equality after re-parsing whole documents, renderers' own output."
 )
 RULE_KINDS = {
-    "sink/output-not-rewritten": "structural", "slot/decision-by-presence": "structural", "slot/frame-popped": "structural", "slot/frame-scope": "bounded", "slot/nearest-frame-wins": "finite-exhaustive", "flatten/terminators-with-control-characters": "bounded",
+    "sink/output-not-rewritten": "structural", "sink/whole-data-escaper": "structural", "flatten/terminators-across-chunk-boundaries": "bounded", "slot/decision-by-presence": "structural", "slot/frame-popped": "structural", "slot/frame-scope": "bounded", "slot/nearest-frame-wins": "finite-exhaustive", "flatten/terminators-with-control-characters": "bounded",
     "sink/": "structural", "attribute/": "structural", "children/": "structural", "recursion/": "structural",
     "escaper/all-bytes": "finite-exhaustive", "escaper/rewrite-order": "structural", "escaper/metacharacters": "structural", "escaper/attribute-chain": "structural",
     "flatten/": "bounded", "escaper/": "bounded",
@@ -75,6 +75,13 @@ def check(ctx):
             raise AnalysisError(f"C28/flatten: _flattenElement uses a construct the evaluator cannot interpret: {e}")
     with ctx.section("buffer"):
         _buffer(ctx)
+    with ctx.section("s-whole-data"):
+        structural(ctx, "sink/whole-data-escaper", "flatten/terminators-across-chunk-boundaries (bounded)", _s_whole_data, ctx)
+    with ctx.section("flatten-straddle"):
+        try:
+            _flatten_straddle(ctx)
+        except (InterpError, ModelRaised) as e:
+            raise AnalysisError(f"C28/flatten-straddle: {e}")
     with ctx.section("s-writer-chain"):
         structural(ctx, "sink/output-not-rewritten", "flatten/terminators-with-control-characters (bounded)", _s_writer_chain, ctx)
     with ctx.section("s-slot-lookup"):
@@ -573,6 +580,146 @@ def _buffer(ctx):
     ctx.check(w is None and bool(final), "recursion/buffer-order", q[:-1] + " | final flush", "flattening can finish with output still in the buffer", witness=g3.describe(w))
     others = [c for c in walk_local(ft) if isinstance(c, ast.Call) and isinstance(c.func, ast.Name) and c.func.id == up]
     ctx.check(not others, "recursion/buffer-order", q[:-1] + " | no direct writes", "_flattenTree writes to the upstream writer around the buffer")
+
+
+def _escaper_reach(ctx, name):
+    """how far an escaper looks: ('context', why) when it rewrites a pattern longer than one byte or inspects positions (startswith / endswith / slices / indexing) - its guarantee
+    holds only for the WHOLE string it was given; ('bytewise', None) when it is a chain of single-byte replacements (may be applied piece by piece); (None, why) when not understood"""
+    try:
+        f = ctx.func(FL, name)
+    except Exception:
+        return None, "not a function of the module"
+    p0 = param_names(f)[0] if param_names(f) else None
+    why = []
+    for x in ast.walk(f):
+        if isinstance(x, ast.Call) and isinstance(x.func, ast.Attribute) and x.func.attr == "replace" and x.args:
+            lit = _const(x.args[0])
+            if isinstance(lit, (bytes, str)) and len(lit) > 1:
+                why.append(f"rewrites {lit!r}")
+            elif not isinstance(lit, (bytes, str)):
+                v = MODULE_ENV.get(src(x.args[0]))
+                if isinstance(v, (bytes, str)) and len(v) > 1:
+                    why.append(f"rewrites {v!r}")
+                elif not isinstance(v, (bytes, str)):
+                    return None, f"replace({src(x.args[0])}, ...) with a pattern that is not a literal"
+        if isinstance(x, ast.Call) and isinstance(x.func, ast.Attribute) and x.func.attr in ("startswith", "endswith", "find", "index", "rfind", "split", "partition", "rpartition"):
+            why.append(f"looks at positions ({x.func.attr})")
+        if isinstance(x, ast.Subscript) and isinstance(x.value, ast.Name):
+            why.append("looks at positions (indexing / slicing)")
+        if isinstance(x, ast.Call) and (call_name(x) or "").split(".")[-1] in ("sub", "subn") and "re" in (call_name(x) or ""):
+            why.append("rewrites by a regular expression")
+    return ("context", "; ".join(sorted(set(why)))) if why else ("bytewise", None)
+
+
+def _s_whole_data(ctx):
+    """STRUCTURAL (def-use, by role): an escaper whose guarantee depends on context - it rewrites a multi-byte pattern (']]>', '-->', '--!>') or looks at the start / end of its
+    argument - is applied to the WHOLE character data of the node: its argument derives from root.data / root itself, never from a slice, a chunk or a loop variable running over
+    pieces of it (a terminator straddling two pieces would be seen by neither call).  Byte-wise escapers may be applied piece by piece"""
+    f = norm_function(ctx, FL, "_flattenElement")
+    q = Q + "_flattenElement"
+    module_funcs = {n.name for n in ctx.mod(FL).tree.body if isinstance(n, ast.FunctionDef)} if hasattr(ctx.mod(FL), "tree") else set()
+    loopvars = {}
+    for st in walk_local(f):
+        if isinstance(st, ast.For):
+            for x in ast.walk(st.target):
+                if isinstance(x, ast.Name):
+                    loopvars[x.id] = st
+        for comp in [c for c in ast.walk(st) if isinstance(c, (ast.ListComp, ast.GeneratorExp, ast.SetComp, ast.DictComp))] if isinstance(st, ast.stmt) else []:
+            for gen in comp.generators:
+                for x in ast.walk(gen.target):
+                    if isinstance(x, ast.Name):
+                        loopvars.setdefault(x.id, gen)
+
+    def whole(e, depth=0):
+        """True: the node's complete data; False: positively a part of it; None: not understood"""
+        if depth > 4:
+            return None
+        if isinstance(e, ast.Attribute) and src(e) == "root.data":
+            return True
+        if isinstance(e, ast.Name) and e.id == "root":
+            return True
+        if isinstance(e, ast.Call) and isinstance(e.func, ast.Attribute) and e.func.attr in ("encode", "decode"):
+            return whole(e.func.value, depth + 1)
+        if isinstance(e, ast.Subscript) and isinstance(e.slice, ast.Slice):
+            return False
+        if isinstance(e, ast.Name):
+            if e.id in loopvars:
+                it = loopvars[e.id].iter
+                if any(isinstance(x, ast.Attribute) and src(x) in ("root.data",) or (isinstance(x, ast.Name) and x.id == "root") for x in ast.walk(it)):
+                    return False          # runs over pieces of the node's data
+                return None
+            ds = [s_.value for s_ in walk_local(f) if isinstance(s_, ast.Assign) and any(isinstance(t, ast.Name) and t.id == e.id for t in s_.targets)]
+            rs = [whole(d, depth + 1) for d in ds]
+            if not ds or None in rs:
+                return None
+            return all(rs)
+        return None
+    n = 0
+    for c in [c for c in walk_local(f) if isinstance(c, ast.Call) and isinstance(c.func, ast.Name) and len(c.args) == 1]:
+        name = c.func.id
+        if name == "dataEscaper":
+            continue          # the per-context escapers handed around as dataEscaper are the byte-wise ones (checked: escaper/all-bytes)
+        if not name.startswith("escape"):
+            continue
+        reach, why = _escaper_reach(ctx, name)
+        if reach != "context":
+            continue
+        n += 1
+        v = whole(c.args[0])
+        if v is None:
+            raise Abstain(f"where the argument of {name}({src(c.args[0])}) comes from was not understood")
+        ctx.check(v, "sink/whole-data-escaper", q + f" | {name}({src(c.args[0])})",
+                  f"{name} {why}, so it has to see the node's whole character data; here it is given `{src(c.args[0])}`, a PIECE of it: a terminator that straddles two pieces is rewritten by "
+                  "neither call and closes the section inside the data - the rest is parsed as markup")
+    if n == 0:
+        raise Abstain("no call of a context-sensitive escaper found in the normalised _flattenElement")
+
+
+def _flatten_straddle(ctx):
+    """BOUNDED: CDATA / comment / text data in which a terminator straddles every power-of-two offset from 2**10 to 2**17 (any plausible chunk size, BUFFER_SIZE among them),
+    flattened through flatten(); judged with the tokenizer oracles"""
+    w = _flat_world(ctx)
+    q = Q + "flatten"
+    bad, n = [], 0
+    for kind, term in (("cdata", "]]>"), ("comment", "-->"), ("comment", "--!>"), ("text", "<b>")):
+        for shift in range(1, len(term)):
+            n += 1
+            parts, pos = [], 0
+            for k in range(10, 18):
+                at = 2 ** k - shift          # the terminator starts `shift` characters before the boundary
+                parts.append("a" * (at - pos))
+                parts.append(term)
+                pos = at + len(term)
+            d = "".join(parts) + "<script>x</script>"
+            node = Comment(d) if kind == "comment" else CDATA(d) if kind == "cdata" else d
+            try:
+                doc = _flatten(w, Tag("p", {}, [node, "TAIL"]))
+            except ModelRaised as e:
+                bad.append((kind, term, shift, f"raises {e.name}"))
+                continue
+            raw = d.encode("utf-8")
+            if not (doc.startswith(b"<p>") and doc.endswith(b"TAIL</p>")):
+                bad.append((kind, term, shift, "the element is not flattened as <p>...TAIL</p>"))
+                continue
+            inner = doc[3:-len(b"TAIL</p>")]
+            if kind == "comment":
+                end = html5_comment_end(inner + b"TAIL</p>") if inner.startswith(b"<!--") else -1
+                if end != len(inner):
+                    bad.append((kind, term, shift, f"an HTML tokenizer ends the comment at offset {end} of {len(inner)}: what follows ({inner[end:end + 30]!r}...) is markup"))
+            elif kind == "cdata":
+                got = _parse_cdata(inner)
+                if got != raw:
+                    first = inner.find(b"]]>")
+                    bad.append((kind, term, shift, f"the CDATA section ends at offset {first} (a ']]>' of the data was not rewritten): what follows ({inner[first + 3:first + 33]!r}...) is markup"))
+            else:
+                if b"<" in inner or b">" in inner or html.unescape(inner.decode("utf-8")) != d:
+                    bad.append((kind, term, shift, "the text does not come back unchanged / contains raw markup characters"))
+    msg = ""
+    if bad:
+        kind, term, shift, why = bad[0]
+        msg = (f"{ {'comment': 'Comment', 'cdata': 'CDATA', 'text': 'text'}[kind] } data with {term!r} starting {shift} character(s) before the offsets 2**10 .. 2**17: {why}; "
+               f"{len(bad)} of {n} data strings wrong")
+    ctx.check(not bad, "flatten/terminators-across-chunk-boundaries", q + " | <terminator straddling power-of-two offsets>", msg, detail=f"{n} data strings of ~128 KiB")
 
 
 def _s_writer_chain(ctx):
